@@ -43,6 +43,7 @@ TStrict ==
     \/ n = "disconnect" /\ Disconnect /\ Observed(Ev.st)
     \/ n = "plainjoin" /\ PlainJoin /\ Observed(Ev.st)
     \/ n = "trustedleave" /\ TrustedLeave /\ Observed(Ev.st)
+    \/ n = "trustedjoin" /\ TrustedJoin /\ Observed(Ev.st)
     \/ n = "newblock" /\ netHead' = Ev.netHead
                       /\ UNCHANGED <<stored, pruned, foreign, sampled, now, peers, trusted, phase, subj, ongoing, hsub, sawPeer, lastFetch, slowH>>
     \/ n = "tick"     /\ now' = Ev.now      \* real time passed (aging runs)
@@ -64,7 +65,7 @@ TLoose ==
     /\ \/ n = "reset"   /\ stored' = {} /\ pruned' = {} /\ foreign' = {} /\ sampled' = {} /\ now' = Ev.now /\ netHead' = 1
                         /\ subj' = 0 /\ lastFetch' = NoFetch
        \/ n = "prefill" /\ Adopt(Ev.st) /\ netHead' = Ev.netHead /\ UNCHANGED <<now, lastFetch, slowH>>
-       \/ n \in {"mark", "prune", "connect", "disconnect", "plainjoin", "trustedleave", "headsub", "tryinit", "batch"}
+       \/ n \in {"mark", "prune", "connect", "disconnect", "plainjoin", "trustedleave", "trustedjoin", "headsub", "tryinit", "batch"}
                         /\ Adopt(Ev.st) /\ UNCHANGED <<now, netHead, lastFetch, slowH>>
        \/ n = "newblock" /\ netHead' = Ev.netHead /\ UNCHANGED <<stored, pruned, foreign, sampled, now, subj, lastFetch, slowH>>
        \/ n = "tick"     /\ now' = Ev.now /\ UNCHANGED <<stored, pruned, foreign, sampled, netHead, subj, lastFetch, slowH>>
